@@ -2,7 +2,7 @@
 import json, os, concurrent.futures
 from . import core
 
-SECTIONS = ["Queue"]
+SECTIONS = ["Queue", "Pipeline", "Item"]
 LEVEL = "proof"
 RULE = ("(i) hop counts 0..N through the real hopsToPath/pathToHops; (ii) operation sequences (add batches with duplicate values inside and "
         "across batches, claim, delete, reset, abandon + re-open) against the real local-queue client on a temporary job directory, rows "
@@ -133,8 +133,44 @@ def mk_scen(r, nfail, kinds, nout, nfin, batch=3, workers=2, wait=14):
             "failadd": [r.choice(kinds) for _ in range(nfail)], "faildel": [r.choice(kinds) for _ in range(min(nfail, 1))]}
 
 
+def finisher_acks(ctx, n):
+    """seeds going round the real reactor + finisher workers: a seed that left the pipeline complete must have been acknowledged by its id"""
+    from . import c01
+    r = ctx.rng
+    lines, meta = [], []
+    for b in range(n):
+        seeds = []
+        for k in range(r.randrange(1, 8)):
+            s, left = c01.gen_seed(r, "q%ds%d" % (b, k))
+            if not left:
+                seeds.append(s)
+        if not seeds:
+            continue
+        lines += [json.dumps({"op": "start", "workers": r.choice([1, 2, 4]), "tokens": 8}), json.dumps({"op": "seeds", "seeds": seeds, "waitMs": 4000})]
+        meta += [None, seeds]
+    lines.append(json.dumps({"op": "close"})); meta.append(None)
+    impl, model = ctx.pair("pipeline", lines, timeout=900)
+    for l, m, a, b in zip(lines, meta, impl, model):
+        if m is None:
+            continue
+        rows = {x.split(" ")[0]: x for x in a.split(" ; ")}
+        for s in m:
+            sid = s["tree"][0]
+            row = rows.get(sid, "")
+            f = dict(p.split("=") for p in row.split(" ")[1:5]) if row else {}
+            ctx.case("fin" + json.dumps(s), len(s["updates"]) >= 1)
+            ctx.count("finisher-seeds")
+            fresh_leaf = s["tree"][2] == "Fresh"
+            if not fresh_leaf and f.get("acks") != "1":
+                ctx.violation("seed %s finished (%d passes, nothing pending, no longer tracked=%s) but %s acknowledgement(s) reached the queue" % (
+                    sid, len(s["updates"]) + 1, f.get("tracked"), f.get("acks")), {"domain": "pipeline", "ops": [{"op": "start", "workers": 2, "tokens": 8}, {"op": "seeds", "seeds": [s]}]})
+        if a != b:
+            ctx.disagree({"ops": [{"op": "start", "workers": 2, "tokens": 8}, json.loads(l)]}, a[:500], b[:500])
+
+
 def run(ctx):
     r = ctx.rng
+    finisher_acks(ctx, 200 if ctx.thorough() else 12)
     hops_stream(ctx, 3000 if ctx.thorough() else 300)
     lq_stream(ctx, 1500 if ctx.thorough() else 60)
     scen = [mk_scen(r, 0, ["500"], 7, 3), mk_scen(r, 2, ["500", "reset"], 6, 2), mk_scen(r, 1, ["timeout"], 3, 2)]
@@ -151,6 +187,14 @@ def replay(ctx, doc):
     rp = doc.get("replay", doc)
     if "scenario" in rp:
         hq_scenarios(ctx, [rp["scenario"]])
+    elif rp.get("domain") == "pipeline":
+        lines = [json.dumps(o) for o in rp["ops"]] + [json.dumps({"op": "close"})]
+        impl, model = ctx.pair("pipeline", lines)
+        for x, y in zip(impl, model):
+            if x != y:
+                ctx.disagree({"ops": rp["ops"]}, x, y); break
+            if " acks=0 " in x and " tracked=false" in x and "produced=0" in x:
+                ctx.violation("replay: a finished seed was not acknowledged: " + x[:200], rp)
     elif "ops" in rp:
         lines = [json.dumps(o) for o in rp["ops"]] + [json.dumps({"op": "lqclose"})]
         impl, model = ctx.pair("queue", lines)
